@@ -68,6 +68,8 @@ psf_get_chunk_iterator (SF_PRIVATE * psf, const char * marker_str)
 			char str [5] ;
 		} u ;
 
+		/* A short id must not leave stack residue in the marker. */
+		memset (&u, 0, sizeof (u)) ;
 		snprintf (u.str, sizeof (u.str), "%s", marker_str) ;
 
 		marker_len = strlen (marker_str) ;
@@ -167,6 +169,8 @@ psf_find_read_chunk_str (const READ_CHUNKS * pchk, const char * marker_str)
 		char str [5] ;
 	} u ;
 
+	/* A short id must not leave stack residue in the marker. */
+	memset (&u, 0, sizeof (u)) ;
 	snprintf (u.str, sizeof (u.str), "%s", marker_str) ;
 
 	hash = strlen (marker_str) > 4 ? hash_of_str (marker_str) : u.marker ;
@@ -206,6 +210,8 @@ psf_store_read_chunk_str (READ_CHUNKS * pchk, const char * marker_str, sf_count_
 	size_t marker_len ;
 
 	memset (&rchunk, 0, sizeof (rchunk)) ;
+	/* A short id must not leave stack residue in the marker. */
+	memset (&u, 0, sizeof (u)) ;
 	snprintf (u.str, sizeof (u.str), "%s", marker_str) ;
 
 	marker_len = strlen (marker_str) ;
@@ -255,6 +261,8 @@ psf_save_write_chunk (WRITE_CHUNKS * pchk, const SF_CHUNK_INFO * chunk_info)
 	len = chunk_info->datalen ;
 	while (len & 3) len ++ ;
 
+	/* A short id must not leave stack residue in the marker. */
+	memset (&u, 0, sizeof (u)) ;
 	snprintf (u.str, sizeof (u.str), "%.4s", chunk_info->id) ;
 
 	pchk->chunks [pchk->used].hash = strlen (chunk_info->id) > 4 ? hash_of_str (chunk_info->id) : u.marker ;
